@@ -25,7 +25,7 @@ D = {
     "C13b": ("Mesh1D.eval_basis cache key without the element number", "several elements, xi exactly on an interior element boundary, two requests for different elements on one mesh"),
     "C10b": ("CosseratRod_PetrovGalerkin.E_pot_el divides the cached strains in place", "E_pot evaluated before another quantity at the same nodal coordinates (cache hit), reference stretch J != 1"),
     "C06b": ("Sphere2Sphere.n cache key without t", "a Sphere2Sphere contact with a partner on a moving Frame, evaluated at two times with a bit-identical q"),
-    "C01b": ("Exp_SO3_quat (normalising): a division-by-zero guard, matrix /= P @ P + eps", "a quaternion far from unit length on the small side (|P| <= 1e-5): errors eps/|P|^2"),
+    "C01b": ("Exp_SO3_quat (normalising): a division-by-zero guard, matrix /= P @ P + eps (patch.diff is the same change rebased onto the tree after fix 90a30e8f, which rewrote that line; the sub-agent's file is patch.as-delivered.diff)", "a quaternion far from unit length on the small side (|P| <= 1e-5): errors eps/|P|^2"),
     "C02b": ("Log_SO3 near half-turns: n n^T taken from the exact half-turn formula (A + A^T + 2 I)/4", "rotation angle in (pi - 0.0447, pi) about an axis that is not a coordinate axis"),
     "C03b": ("T_SO3_quat_P adds the normalisation correction also for normalize=False", "the non-default normalize=False, compared in the direction along P itself"),
     "C04b": ("check_time_derivatives returns f_t where a non-callable second derivative f_tt was supplied", "a Frame with callable motion and a constant (non-callable) second derivative"),
